@@ -19,6 +19,19 @@ Clauses:
   C13.anova_func.model   ANOVA_func: coefficients equal the own per-dimension ridge fit (Chebyshev Vandermonde,
                          normal equations + lamb I); interpolant of cores(e=None) (teneva.func_get) == fitted constant
                          + sum of fitted 1-D expansions at random points; anova_func(e=1e-8) within 1e-6
+  C13.anova2.only_near   ANOVA.cores / cores_2 with only_near=True: constant + per-mode terms + pair terms of the
+                         neighbouring modes (k, k+1) only.  FAILS on the clean tree for every d >= 3 (possible genuine
+                         defect, reported: wrong positions in the pair list; ValueError for unequal mode sizes)
+  C13.anova.order2_noise order 2 with noise > 0 / rel_noise: |Y - model|_F <= (1 + sqrt(d-1)) * noise bound + 1e-6 |model|
+
+Parameter coverage (audit): order 2 with d = 4 (equal and unequal modes) and d = 5, a mode of size 12, only_near,
+rel_noise for both orders, noise for order 2, repeated export, anova seeds as int and as Generator objects, overall
+data scale 1e-8, 1e-4, 1e4, 1e8 (ykinds tiny8 .. huge8; every statement is homogeneous in y; the pair matrices go
+through matrix_skeleton with its default ABSOLUTE accuracy 1e-10: the order-2 tolerances carry an absolute 1e-10 per
+pair, which matters only at the scale 1e-8, and the repeated-export clause gets the small scales with order 1 only),
+functional variant with d = 4, per-dimension bounds as lists, points / values as lists.
+# DOUBTFUL (not yielded): data of scale <= 1e-10, e.g. y * 1e-10 for shape [3, 4], how 'full2', r = need: all pair
+# singular values fall below the absolute 1e-10 of matrix_skeleton, the pair terms are dropped, relative error 0.16.
 """
 import itertools
 import numpy as np
@@ -27,12 +40,13 @@ from rtc.api import clause, PASS, FAIL, TRIVIAL, SKIP, check
 from rtc import gen
 
 BUDGET = (100, 800)
-BOUNDS = ('d = 2..4, observed mode sizes 1..5 (index values with gaps), full grids / doubled grids / sparse random '
-          'subsets with duplicates (different y), y Gaussian / integer / additive / constant+spike; r in 2..5, '
-          'noise in {0, 1e-10, 1e-3, 0.5}, orders 1 and 2 (rank 2 + pairs*n_max), 3 anova seeds; functional: d = 2..3, '
+BOUNDS = ('d = 2..5, observed mode sizes 1..5 (+ 9, 12) (index values with gaps), full grids / doubled grids / sparse random '
+          'subsets with duplicates (different y), y Gaussian / integer / additive / constant+spike / Gaussian scaled by 1e-8 .. 1e8; r in 2..5, '
+          'noise in {0, 1e-10, 1e-3, 0.5} and rel_noise, orders 1 and 2 (rank 2 + pairs*n_max), only_near, int / Generator seeds; functional: d = 2..4, '
           'n = 2..6, m = 6n..10n points, lamb in {1e-7, 1e-3, 1}, boxes [-1,1], [0,2], [-3,5]')
 
 EPS = np.finfo(float).eps
+SCALED = {'tiny8': 1e-8, 'tiny4': 1e-4, 'huge4': 1e4, 'huge8': 1e8}
 
 
 def _data(shape, how, ykind, seed):
@@ -69,6 +83,8 @@ def _data(shape, how, ykind, seed):
     elif ykind == 'spike':
         y = np.full(len(P), 2.5)
         y[0] = 1e3
+    elif ykind in SCALED:                             # overall data scale: every statement is homogeneous in y
+        y = (g.normal(size=len(P)) * 3. + 1.) * SCALED[ykind]
     else:
         raise ValueError(ykind)
     return I, y, dom, P
@@ -235,10 +251,12 @@ def _pattern(shape, f0, f1, r):
 
 
 @clause('C13.anova.noise', funcs=('anova.anova', 'anova.ANOVA.cores_1'))
-def anova_noise(shape, how, ykind, seed, r, noise, aseed, rel):
+def anova_noise(shape, how, ykind, seed, r, noise, aseed, rel, as_generator=False):
     """noise > 0 (or rel_noise via the class): ranks == r, observed mode sizes, and the deviation from the model is
     bounded entrywise by chain(|P| + 8 noise M) - chain(|P|) (+ rounding)."""
     I, y, dom, P = _data(shape, how, ykind, seed)
+    if as_generator:                                  # a Generator object instead of an integer seed
+        aseed = np.random.default_rng(aseed)
     if rel:
         A = teneva.ANOVA(I, y, 1, seed=aseed)
         Y = A.cores(r, noise=123., rel_noise=noise)
@@ -315,13 +333,103 @@ def anova_order2(shape, how, ykind, seed, r, aseed):
     if nrm == 0:
         return SKIP('zero model (C11 family)')
     err = np.linalg.norm(got - T)
-    if not err <= 1e-6 * nrm:
+    # the pair matrices pass through matrix_skeleton with its documented ABSOLUTE default accuracy 1e-10: an absolute
+    # slack of 1e-10 per pair (broadcast over the other modes), negligible unless the data are of scale <= 1e-6
+    if not err <= 1e-6 * nrm + 1e-10 * (d * (d - 1) // 2) * np.sqrt(T.size):
         return FAIL(f'value != f0 + sum f1 + sum f2: rel. error {err / nrm:.3e}')
     if d == 2 and how == 'full':
         D = np.zeros(shape)
         D[tuple(P.T)] = y
         if not np.linalg.norm(got - D) <= 1e-6 * np.linalg.norm(D):
             return FAIL('d = 2, full grid: the second-order model does not reproduce the data')
+    return PASS
+
+
+def _near(f2):
+    return {k: v for k, v in f2.items() if k[1] == k[0] + 1}
+
+
+@clause('C13.anova2.only_near', funcs=('anova.ANOVA.cores', 'anova.ANOVA.cores_2', 'anova._second_order_2_tt',
+                                        'act_many.add_many'))
+def anova2_only_near(shape, how, ykind, seed, aseed):
+    """ANOVA(order=2).cores(r, 0, only_near=True) with a rank that cuts nothing: the tensor is the constant plus the
+    per-mode terms plus the pair terms of NEIGHBOURING modes (k, k+1) only, at every multi-index of the observed
+    domain (relative Frobenius 1e-6), ranks <= r, observed mode sizes; cores_2(only_near=True) returns d - 1 pair
+    tensors, the k-th one equal to the pair term of modes (k, k+1).  For d = 2 this is the full second-order model.
+    FAILS on the clean tree for d >= 3 (possible genuine defect, reported): the pair matrices are taken from
+    positions 0, 1, .. of the full pair list ((0,1), (0,2), ..) instead of the positions of (k, k+1) - ValueError for
+    unequal mode sizes, the term of another pair otherwise."""
+    I, y, dom, P = _data(shape, how, ykind, seed)
+    d = len(shape)
+    A = teneva.ANOVA(I, y, 2, seed=aseed)
+    f0, f1, f2 = _own_model(I, y, dom, 2)
+    near = _near(f2)
+    r = 2 + sum(min(shape[k], shape[k + 1]) for k in range(d - 1)) + 1
+    try:
+        pairs = A.cores_2(r, only_near=True)
+        Y = A.cores(r, 0., only_near=True)
+    except ValueError as e:
+        return FAIL(f'only_near=True raises ValueError: {e}')
+    if len(pairs) != d - 1:
+        return FAIL(f'cores_2(only_near=True) returns {len(pairs)} tensors for d = {d}')
+    sc = _scale(y, f0, f1, f2)
+    for k, Z in enumerate(pairs):
+        msg = gen.wf(Z, shape)
+        if msg:
+            return FAIL(f'pair tensor {k} not well-formed: {msg}')
+        sh = [1] * d
+        sh[k], sh[k + 1] = shape[k], shape[k + 1]
+        want = np.broadcast_to(near[(k, k + 1)].reshape(sh), shape)
+        if not np.linalg.norm(gen.dense(Z) - want) <= 1e-6 * np.linalg.norm(want) + 64 * EPS * sc * want.size:
+            return FAIL(f'pair tensor {k} is not the pair term of modes ({k}, {k + 1}): rel. error '
+                        f'{np.linalg.norm(gen.dense(Z) - want) / max(np.linalg.norm(want), 1e-300):.3e}')
+    msg = gen.wf(Y, shape)
+    if msg:
+        return FAIL('not well-formed / wrong mode sizes: ' + msg)
+    if not _ranks_ok(Y, r, False):
+        return FAIL(f'TT-ranks {[G.shape[2] for G in Y[:-1]]} exceed {r}')
+    T = _model_dense(shape, f0, f1, near)
+    nrm = np.linalg.norm(T)
+    if nrm == 0:
+        return SKIP('zero model (C11 family)')
+    err = np.linalg.norm(gen.dense(Y) - T)
+    if not err <= 1e-6 * nrm:
+        return FAIL(f'value != f0 + sum f1 + sum of neighbouring pair terms: rel. error {err / nrm:.3e}')
+    return PASS
+
+
+@clause('C13.anova.order2_noise', funcs=('anova.anova', 'anova.ANOVA.cores', 'anova.ANOVA.cores_1', 'anova.ANOVA.cores_2',
+                                         'act_many.add_many'))
+def anova_order2_noise(shape, how, ykind, seed, noise, rel, aseed, as_generator):
+    """order = 2 with noise > 0 (absolute, or rel_noise through the class) and a rank r >= 2 + sum of the pair ranks:
+    ranks <= r, observed mode sizes, and the distance to the model f0 + sum f1 + sum f2 is bounded by the noise:
+    the unrounded sum S has |S - T| <= delta := |chain(|P| + 8 noise M) - chain(|P|)|_F (P pattern cores of the
+    first-order part, M noise slots); T has ranks <= r, so the rounding to rank r is quasi-optimal:
+    |Y - T| <= (1 + sqrt(d-1)) delta + 1e-6 |T|."""
+    I, y, dom, P = _data(shape, how, ykind, seed)
+    d = len(shape)
+    r = 2 + sum(min(shape[i], shape[j]) for i in range(d - 1) for j in range(i + 1, d))
+    sd = np.random.default_rng(aseed) if as_generator else aseed
+    if rel:
+        Y = teneva.ANOVA(I, y, 2, seed=sd).cores(r, noise=55., rel_noise=noise)
+        eff = noise * max(abs(np.max(y)), abs(np.min(y)))
+    else:
+        Y = teneva.anova(I, y, r, 2, noise, sd)
+        eff = noise
+    msg = gen.wf(Y, shape)
+    if msg:
+        return FAIL('not well-formed / wrong mode sizes: ' + msg)
+    if not _ranks_ok(Y, r, False):
+        return FAIL(f'TT-ranks {[G.shape[2] for G in Y[:-1]]} exceed {r}')
+    f0, f1, f2 = _own_model(I, y, dom, 2)
+    T = _model_dense(shape, f0, f1, f2)
+    Pc, Mk = _pattern(shape, f0, f1, r)
+    delta = np.linalg.norm(gen.dense([np.abs(G) + 8. * eff * M for G, M in zip(Pc, Mk)]) - gen.dense([np.abs(G) for G in Pc]))
+    err = np.linalg.norm(gen.dense(Y) - T)
+    lim = (1. + np.sqrt(d - 1.)) * (delta + 1e-10 * (d * (d - 1) // 2) * np.sqrt(T.size)) + 1e-6 * np.linalg.norm(T) \
+        + 64 * EPS * _scale(y, f0, f1, f2) * T.size         # 1e-10 per pair: absolute default accuracy of matrix_skeleton
+    if not err <= lim:
+        return FAIL(f'distance to the second-order model {err:.3e} exceeds the noise bound {lim:.3e} (noise {eff})')
     return PASS
 
 
@@ -333,8 +441,9 @@ def _own_ridge(X, y, n, a, b, lamb):
     y0 = float(np.mean(y))
     yc = y - y0
     const, cfs, cmax = y0, [], 1.
+    a, b = np.broadcast_to(np.asarray(a, dtype=float), (X.shape[1],)), np.broadcast_to(np.asarray(b, dtype=float), (X.shape[1],))
     for k in range(X.shape[1]):
-        tau = (2. * X[:, k] - a - b) / (b - a)
+        tau = (2. * X[:, k] - a[k] - b[k]) / (b[k] - a[k])
         V = Pc.chebvander(tau, n - 1)                    # (m, n)
         H = V.T @ V + lamb * np.eye(n)
         c = np.linalg.solve(H, V.T @ yc)
@@ -351,17 +460,20 @@ def anova_func_model(d, n, m, a, b, lamb, seed, ykind, yscale=1.0):
     anova_func with the default rounding e=1e-8 agrees within 1e-6."""
     Pc = np.polynomial.chebyshev
     g = gen.rng('C13.func', d, n, m, a, b, seed, ykind)
+    a_arg, b_arg = a, b                                # as handed to teneva: number, list (per-dimension bounds)
+    if isinstance(a, list):
+        a, b = np.array(a, dtype=float), np.array(b, dtype=float)
     X = g.uniform(a, b, size=(m, d))
     X[m // 3] = X[0]                                   # a repeated point
     if ykind == 'gauss':
         y = g.normal(size=m)
     elif ykind == 'additive':                          # additive polynomial of degree < n: the fit is (nearly) exact
         cf = [g.normal(size=n) for _ in range(d)]
-        y = 0.3 + sum(Pc.chebval((2. * X[:, k] - a - b) / (b - a), cf[k]) for k in range(d))
+        y = 0.3 + sum(Pc.chebval(((2. * X - a - b) / (b - a))[:, k], cf[k]) for k in range(d))
     else:
         y = np.cos(X.sum(axis=1)) * 2. + X[:, 0]
     y = y * yscale                                     # the model is linear in the data: every statement below scales with it
-    O = teneva.ANOVA_func(X.copy(), y.copy(), n, a, b, lamb)
+    O = teneva.ANOVA_func(X.copy(), y.copy(), n, a_arg, b_arg, lamb)
     cfs = O.coeffs
     const, own, cond = _own_ridge(X, y, n, a, b, lamb)
     sc = np.abs(y).max() + abs(const) + sum(np.abs(c).sum() for c in own)
@@ -380,9 +492,9 @@ def anova_func_model(d, n, m, a, b, lamb, seed, ykind, yscale=1.0):
     Xt = g.uniform(a, b, size=(8, d))
     tau = (2. * Xt - a - b) / (b - a)
     model = cfs[0] + sum(Pc.chebval(tau[:, k], np.r_[0., cfs[k + 1]]) for k in range(d))
-    kap = max(abs(a), abs(b)) / (b - a)
+    kap = float(np.max(np.maximum(np.abs(a), np.abs(b)) / (b - a)))
     tol = 64. * EPS * d * n * n * (1. + kap) * sc
-    got = teneva.func_get(Xt, A, a, b)
+    got = teneva.func_get(Xt, A, a_arg, b_arg)
     if not np.abs(got - model).max() <= tol:
         return FAIL(f'interpolant != fitted constant + sum of fitted expansions: {np.abs(got - model).max():.3e} > {tol:.2e}')
     # dense check of the coefficient tensor: constant at index 0, c_k[p] at p e_k, zero elsewhere
@@ -397,7 +509,7 @@ def anova_func_model(d, n, m, a, b, lamb, seed, ykind, yscale=1.0):
     if not np.abs(D - W).max() <= 64. * EPS * sc * d:
         return FAIL(f'coefficient tensor differs from the delta layout by {np.abs(D - W).max():.3e}')
     if np.linalg.norm(W) > 0:
-        B = teneva.anova_func(X.copy(), y.copy(), n, a, b, lamb)
+        B = teneva.anova_func(X.copy() if seed % 2 else X.tolist(), y.copy() if seed % 2 else y.tolist(), n, a_arg, b_arg, lamb)
         msg = gen.wf(B, [n] * d)
         if msg:
             return FAIL('anova_func not well-formed: ' + msg)
@@ -457,6 +569,57 @@ def cases(tier, seed):
                 for yk in ('additive', 'smooth'):
                     yield 'C13.anova_func.model', dict(d=d, n=n, m=(6 + 2 * d) * n, a=-1., b=1., lamb=1e-7, seed=n + d, ykind=yk,
                                                        yscale=yscale)
+    # ---- parameter-coverage additions -----------------------------------------------------------------------
+    # larger d / mode sizes (order 2 with d = 5, a mode of size 12), reduced combination list
+    j = 0
+    for shape in ([2, 2, 2, 2, 2], [12, 3], [2, 9, 2], [3, 3, 3, 3]) + (([2, 3, 2, 3, 2], [4, 4, 4, 4]) if big else ()):
+        d = len(shape)
+        need = 2 + sum(min(shape[i], shape[k]) for i in range(d - 1) for k in range(i + 1, d))
+        for how in hows if big else ('full', 'sparse'):
+            for yk in ykinds if big else ('gauss',):
+                j += 1
+                base = dict(shape=shape, how=how, ykind=yk, seed=j)
+                for order in (1, 2):
+                    yield 'C13.model.terms', dict(base, order=order)
+                    yield 'C13.ANOVA.repeated_export', dict(base, order=order, aseed=j % 3)
+                yield 'C13.anova.order1', dict(base, r=2 + j % 3, aseed=j % 3)
+                yield 'C13.anova.noise', dict(base, r=3, noise=1e-3, aseed=j, rel=bool(j % 2), as_generator=True)
+                for r in (need, need + 3, 2, 3):
+                    yield 'C13.anova.order2', dict(base, r=r, aseed=j % 3)
+                if how != 'sparse':
+                    yield 'C13.anova.additive', dict(shape=shape, how=how, seed=j, r=need, order=2, aseed=j)
+    # overall data scale 1e-8 .. 1e8 (the model and its TT export are homogeneous of degree 1 in y)
+    for shape in ([3, 4], [2, 3, 2], [2, 2, 2, 2]) + (([4, 4, 3], [3, 1, 4]) if big else ()):
+        d = len(shape)
+        need = 2 + sum(min(shape[i], shape[k]) for i in range(d - 1) for k in range(i + 1, d))
+        for how in ('full2', 'sparse'):
+            for yk in SCALED:
+                j += 1
+                base = dict(shape=shape, how=how, ykind=yk, seed=j)
+                yield 'C13.model.terms', dict(base, order=2)
+                yield 'C13.anova.order1', dict(base, r=3, aseed=j % 3)
+                yield 'C13.anova.noise', dict(base, r=3, noise=1e-2, aseed=j % 3, rel=True, as_generator=bool(j % 2))
+                yield 'C13.anova.order2', dict(base, r=need, aseed=j % 3)
+                yield 'C13.ANOVA.repeated_export', dict(base, order=2 if SCALED[yk] > 1 else 1, aseed=j % 3)
+                yield 'C13.anova.order2_noise', dict(base, noise=1e-3, rel=True, aseed=j, as_generator=bool(j % 2))
+    # order 2 with noise; only_near
+    for shape in ([3, 4], [2, 3, 2], [4, 4, 3], [2, 2, 2, 2], [3, 2, 1, 3]) + (([2, 2, 2, 2, 2], [5, 5]) if big else ()):
+        for how in hows if big else ('full', 'sparse'):
+            for (noise, rel) in ((1e-10, False), (1e-3, False), (1e-2, True)):
+                j += 1
+                yield 'C13.anova.order2_noise', dict(shape=shape, how=how, ykind=ykinds[j % 3], seed=j, noise=noise, rel=rel,
+                                                     aseed=j, as_generator=bool(j % 2))
+    for shape in ([3, 4], [1, 3], [3, 3, 3], [3, 4, 2], [2, 2, 2, 2], [3, 2, 1, 3]) + (([2, 2, 2, 2, 2], [4, 4, 4]) if big else ()):
+        for how in hows if big else ('full', 'sparse'):
+            for yk in ('gauss', 'int'):
+                j += 1
+                yield 'C13.anova2.only_near', dict(shape=shape, how=how, ykind=yk, seed=j, aseed=j % 3)
+    # functional variant: d = 4, per-dimension bounds given as lists
+    for (d, n) in ((4, 3), (2, 4), (3, 2)):
+        for yk in ('additive', 'smooth'):
+            yield 'C13.anova_func.model', dict(d=d, n=n, m=(6 + 2 * d) * n, a=-2., b=1., lamb=1e-5, seed=n + d, ykind=yk)
+            yield 'C13.anova_func.model', dict(d=d, n=n, m=(6 + 2 * d) * n, a=[-1. - k for k in range(d)],
+                                               b=[0.5 + 2 * k for k in range(d)], lamb=1e-7, seed=n + d + 1, ykind=yk)
     for rep in range(200 if big else 40):
         shape = [int(g.integers(1, 6)) for _ in range(int(g.integers(2, 5)))]
         if int(np.prod(shape)) > 200:
